@@ -28,6 +28,8 @@ CONSTANTS MacroSig,      \* macro name -> Seq of argument records [k, delta, a, 
           EnvSig,        \* environment name -> [args : Seq of argument records, body : "nodes"|"math"|"legacyverb"]
           SpecSig,       \* specials chars -> Seq of argument records (names missing: no arguments)
           HasUnknownMacro, HasUnknownEnv,
+          Sticky,        \* macro name -> record of parsing-state fields the macro sets for what FOLLOWS it in the same
+                         \* group (a spec whose make_after_parsing_state_delta() returns a delta); names missing: none
           VMarker,       \* "intended" | "as_implemented" (repeated marker matching, end-of-stream after a match)
           VVerb,         \* "intended" | "as_implemented" (\verb at end of input)
           VPosNone       \* "intended" | "as_implemented" (error position None when nothing was collected)
@@ -121,6 +123,13 @@ Collect(s, p0, p, st, stop, child, acc, pend, fuel) ==
                  IF ~r.ok THEN [r EXCEPT !.rn = ListV(acc1)]
                  ELSE Collect(s, p0, r.pos, st, stop, child,
                               IF r.v.vk = "none" THEN acc1 ELSE acc1 \o r.v.ns, <<>>, fuel - 1)
+      \* after a state-changing macro the rest of THIS node list is read under the changed state; the change ends
+      \* with the list (group, formula, environment body, argument)
+      st2 == IF tk.t = "macro" /\ tk.arg \in DOMAIN Sticky
+             THEN [f \in DOMAIN st |-> IF f \in DOMAIN Sticky[tk.arg] THEN Sticky[tk.arg][f] ELSE st[f]] ELSE st
+      ContSticky(r) == IF ~r.ok THEN [r EXCEPT !.rn = ListV(acc1)]
+                       ELSE Collect(s, p0, r.pos, st2, stop, child,
+                                    IF r.v.vk = "none" THEN acc1 ELSE acc1 \o r.v.ns, <<>>, fuel - 1)
   IN
   IF tk.t = "brace_close" THEN Err("unexpected_closing_group", tk.pos, ListV(acc1), tk.pos_end)
   ELSE IF tk.t = "end_environment" THEN Err("unexpected_end_environment", tk.pos, ListV(acc1), tk.pos_end)
@@ -137,7 +146,7 @@ Collect(s, p0, p, st, stop, child, acc, pend, fuel) ==
        IF tk.arg \notin DOMAIN MacroSig /\ ~HasUnknownMacro
        THEN (IF st.tol THEN Collect(s, p0, tk.pos_end, st, stop, child, acc1, <<>>, fuel - 1)     \* node dropped
              ELSE Err("unknown_macro", tk.pos, ListV(acc1), tk.pos_end))
-       ELSE Cont(PC(ParseCall(s, tk, "macro", cst, st, fuel - 1), st))
+       ELSE ContSticky(PC(ParseCall(s, tk, "macro", cst, st, fuel - 1), st))
   ELSE IF tk.t = "begin_environment" THEN
        IF tk.arg \notin DOMAIN EnvSig /\ ~HasUnknownEnv
        THEN (IF st.tol THEN Collect(s, p0, tk.pos_end, st, stop, child, acc1, <<>>, fuel - 1)
